@@ -131,7 +131,7 @@ def pynum(q, as_float=False):
 
 # ------------------------------------------------------------------ element types (R1) and scales (R6)
 NP_TYPES = [('b', np.int8), ('B', np.uint8), ('h', np.int16), ('H', np.uint16), ('w', np.int32), ('q', np.int64),
-            ('x', np.float16), ('e', np.float32), ('d', np.float64)]
+            ('P', np.intp), ('x', np.float16), ('e', np.float32), ('d', np.float64)]
 NP_BY_LETTER = dict(NP_TYPES)
 
 
@@ -157,7 +157,9 @@ def choose_tag(q, k, ints_only=False):
     """ints_only: integer types only (a CHOICE index given as a float is rejected by design)"""
     ls = np_letters(q)
     if ints_only:
-        ls = [c for c in ls if c in 'bBhHwqz'] or ['p']
+        ls = [c for c in ls if c in 'bBhHwqPz'] or ['p']
+        if Fraction(q) in (0, 1):
+            ls = ls + ['o']                      # a bool index counts choice 0 / 1
     return ls[k % len(ls)]
 
 
@@ -168,6 +170,9 @@ def np_cast(q, letter):
         return pynum(q)
     if letter == 'z':
         return np.array(pynum(q))
+    if letter == 'o':
+        assert q in (0, 1)
+        return bool(q)
     T = NP_BY_LETTER[letter]
     x = T(int(q)) if issubclass(T, np.integer) else T(q.numerator / q.denominator)
     assert Fraction(int(x) if issubclass(T, np.integer) else float(x)) == q, (q, letter)
@@ -269,6 +274,97 @@ def show_get(r):
     return 'num:' + rs(fr(v))
 
 
+# ------------------------------------------------------------------ non-mutating API (R11)
+def query_result(r):
+    """every public query of a Result; none of them may change anything (exceptions are fine)"""
+    import pickle
+    for f in (lambda: repr(r), lambda: str(r), lambda: r == r, lambda: r != copy.deepcopy(r), lambda: r.get_result(),
+              lambda: r.get_result_mean(), lambda: r.get_result_var(), lambda: r.get_confidence_interval(),
+              lambda: r.get_confidence_interval(P=90.0), lambda: r.type_name, lambda: r.type_code,
+              lambda: r.accumulate_values_bool, lambda: list(r.get_result_accumulated_values()),
+              lambda: list(r.get_result_accumulated_totals()), lambda: pickle.dumps(r), lambda: r == 5,
+              lambda: r.to_dict()):
+        try:
+            with warnings.catch_warnings():
+                warnings.simplefilter('ignore')
+                with np.errstate(all='ignore'):
+                    f()
+        except Exception:
+            pass
+
+
+def query_params(p):
+    for f in (lambda: repr(p), lambda: len(p), lambda: list(p), lambda: p == p, lambda: p != copy.deepcopy(p),
+              lambda: p.unpacked_parameters, lambda: p.fixed_parameters, lambda: p.get_num_unpacked_variations(),
+              lambda: p.get_unpacked_params_list(), lambda: p.unpack_index,
+              lambda: [p.get_pack_indexes(c.parameters) for c in p.get_unpacked_params_list()[:3]],
+              lambda: p.get_pack_indexes({})):
+        try:
+            f()
+        except Exception:
+            pass
+
+
+def query_sim(s):
+    import pickle
+    for f in (lambda: repr(s), lambda: len(s), lambda: [len(l) for l in s], lambda: s == s,
+              lambda: s != copy.deepcopy(s), lambda: s.get_result_names(), lambda: s.params,
+              lambda: [s.get_result_values_list(nm) for nm in s.get_result_names()],
+              lambda: [s.get_result_values_confidence_intervals(nm, P=95.0) for nm in s.get_result_names()],
+              lambda: [s[nm] for nm in s.get_result_names()], lambda: pickle.dumps(s),
+              lambda: s.get_filename_with_replaced_params('x_{f}')):
+        try:
+            with warnings.catch_warnings():
+                warnings.simplefilter('ignore')
+                with np.errstate(all='ignore'):
+                    f()
+        except Exception:
+            pass
+    query_params(s.params)
+    for lst in s._results.values():
+        for r in lst[:2]:
+            query_result(r)
+
+
+def round_trip(obj, how):
+    """an independent equal object: deep copy (how even) or pickle round trip (how odd)"""
+    import pickle
+    return copy.deepcopy(obj) if how % 2 == 0 else pickle.loads(pickle.dumps(obj))
+
+
+def build_params(par, fixed_items, unp_items, path):
+    """R8: the same parameters configured through the constructor path (create), the setter path (add), or by
+    later replacement (wrong values first, unpack flags toggled)"""
+    if path == 0:
+        d = dict(fixed_items)
+        d.update(dict(unp_items))
+        p = par.SimulationParameters.create(d)
+        for a, _ in unp_items:
+            p.set_unpack_parameter(a)
+    elif path == 1:
+        p = par.SimulationParameters()
+        for a, v in unp_items:
+            p.add(a, v)
+        for a, v in fixed_items:
+            p.add(name=a, value=v)
+        for a, _ in unp_items:
+            p.set_unpack_parameter(name=a, unpack_bool=True)
+    else:
+        d = {a: [9, 8, 7] for a, _ in unp_items}
+        d.update({a: -1 for a, _ in fixed_items})
+        p = par.SimulationParameters.create(d)
+        for a, _ in unp_items:
+            p.set_unpack_parameter(a)
+            p.set_unpack_parameter(a, False)
+        for a, v in fixed_items:
+            p[a] = v
+        for a, v in unp_items:
+            p.add(a, v)
+            p.set_unpack_parameter(a, True)
+            p.set_unpack_parameter(a)
+    return p
+
+
 # ------------------------------------------------------------------ the real code under a script
 class Impl:
     """executes protocol ops on the real classes"""
@@ -307,13 +403,65 @@ class Impl:
                 sim._results = {nm: sim._results[nm] for nm in order}
             elif k == 'nr':
                 cn = None if t[4] == '-' else int(t[4])
-                self.rv.append(R(t[1], int(t[2]), accumulate_values=(t[3] == '1'), choice_num=cn))
+                if cn is not None and len(t) > 5 and t[5] != 'p':
+                    cn = NP_BY_LETTER[t[5]](cn)              # R9: the count as a numpy integer
+                    self.np_counts = getattr(self, 'np_counts', 0) + 1
+                form = i % 3                                 # R8: positional / keyword / mixed
+                if form == 0:
+                    r = R(t[1], int(t[2]), t[3] == '1', cn)
+                elif form == 1:
+                    r = R(name=t[1], update_type_code=int(t[2]), accumulate_values=(t[3] == '1'), choice_num=cn)
+                elif t[3] == '0' and cn is None:
+                    r = R(t[1], int(t[2]))                   # defaults left alone
+                else:
+                    r = R(t[1], int(t[2]), accumulate_values=(t[3] == '1'), choice_num=cn)
+                self.rv.append(r)
+            elif k == 'cr':
+                v, tt = pynum(Fraction(t[4])), pynum(Fraction(t[5]))
+                form = i % 3
+                if form == 0:
+                    r = R.create(t[1], int(t[2]), v, tt, t[3] == '1')
+                elif form == 1:
+                    r = R.create(name=t[1], update_type=int(t[2]), value=v, total=tt, accumulate_values=(t[3] == '1'))
+                elif tt == 0 and t[3] == '0':
+                    r = R.create(t[1], int(t[2]), v)         # total and accumulate_values left at their defaults
+                else:
+                    r = R.create(t[1], int(t[2]), v, total=tt, accumulate_values=(t[3] == '1'))
+                self.rv.append(r)
+            elif k == 'an':
+                v, tt = pynum(Fraction(t[4])), pynum(Fraction(t[5]))
+                sim = self.sims[int(t[1])]
+                if i % 3 == 0:
+                    sim.add_new_result(t[2], int(t[3]), v, tt)
+                elif i % 3 == 1:
+                    sim.add_new_result(name=t[2], update_type=int(t[3]), value=v, total=tt)
+                elif tt == 0:
+                    sim.add_new_result(t[2], int(t[3]), v)
+                else:
+                    sim.add_new_result(t[2], int(t[3]), value=v, total=tt)
+            elif k == 'cp':
+                self.rv.append(round_trip(self.ref(t[1]), i))
+            elif k == 'cps':
+                self.sims.append(round_trip(self.sims[int(t[1])], i))
+            elif k == 'q':
+                query_result(self.ref(t[1]))
+            elif k == 'qs':
+                query_sim(self.sims[int(t[1])])
             elif k == 'u':
                 tag = t[4] if len(t) > 4 else 'pp'
                 if tag != 'pp':
                     self.np_updates = getattr(self, 'np_updates', 0) + 1
                 tt = None if t[3] == '-' else np_cast(t[3], tag[1])
-                self.ref(t[1]).update(np_cast(t[2], tag[0]), tt)
+                v = np_cast(t[2], tag[0])
+                form = i % 4                                 # R8: positional / keyword / default / explicit None
+                if form == 1:
+                    self.ref(t[1]).update(value=v, total=tt)
+                elif form == 2 and tt is None:
+                    self.ref(t[1]).update(v)
+                elif form == 3:
+                    self.ref(t[1]).update(v, total=tt)
+                else:
+                    self.ref(t[1]).update(v, tt)
             elif k == 'm':
                 self.ref(t[1]).merge(self.ref(t[2]))
             elif k == 'ns':
@@ -331,9 +479,7 @@ class Impl:
                         a = dec_name(a)
                         d[a] = make_array([x for x in b.split(':') if x != ''], dts[j] if j < len(dts) else None)
                         unp.append(a)
-                p = par.SimulationParameters.create(d)
-                for a in unp:
-                    p.set_unpack_parameter(a)
+                p = build_params(par, [(a, v) for a, v in d.items() if a not in unp], [(a, d[a]) for a in unp], i % 3)
                 self.sims[int(t[1])].set_parameters(p)
             elif k == 'ad':
                 self.sims[int(t[1])].add_result(self.ref(t[2]))
@@ -566,7 +712,18 @@ def gen_result_script(rng, long=False):
         cnt = '-' if (t_j != 3 and rng.chance(0.7)) else str(c_j)
         if t_j == 3 and rng.chance(0.03):
             cnt = '-'                                   # RuntimeError: choice_num missing
-        do('nr,%s,%d,%d,%s' % (nm, t_j, 1 if a_j else 0, cnt))
+        if rng.chance(0.25):
+            # R8: Result.create(name, type, value, total, accumulate_values) instead of constructor + update
+            v, tt = gen_obs(rng, t_j, c_j, scale=sc)
+            if t_j == 3:
+                tt = str(c_j) if rng.chance(0.9) else rng.choice(['0', '1/2'])
+            elif tt == '-':
+                tt = '0'
+            do('cr,%s,%d,%d,%s,%s' % (nm, t_j, 1 if a_j else 0, v, tt))
+        elif cnt != '-' and rng.chance(0.4):
+            do('nr,%s,%d,%d,%s,%s' % (nm, t_j, 1 if a_j else 0, cnt, rng.choice('bhwqP')))   # R9 numpy count
+        else:
+            do('nr,%s,%d,%d,%s' % (nm, t_j, 1 if a_j else 0, cnt))
         if len(im.rv) > len(specs):
             specs.append((t_j, c_j))
     nsteps = rng.randint(4, 60 if long else 25)
@@ -578,11 +735,17 @@ def gen_result_script(rng, long=False):
         if x < 0.65:
             v, t = gen_obs(rng, specs[a][0], specs[a][1], malformed=0.05, scale=sc)
             do('u,r%d,%s,%s' % (a, v, t))
-        elif x < 0.9:
+        elif x < 0.86:
             b = rng.below(len(im.rv))
             if b == a and rng.chance(0.8):
                 b = (a + 1) % len(im.rv)
             do('m,r%d,r%d' % (a, b))
+        elif x < 0.91:
+            do('q,r%d' % a)                       # R11: queries between the mutators
+        elif x < 0.94 and len(im.rv) < 9:
+            do('cp,r%d' % a)                      # R13: a copy / pickle round trip lives on as its own object
+            if len(im.rv) > len(specs):
+                specs.append(specs[a])
         else:
             do(rng.choice(['g', 'mn', 'vr']) + ',r%d' % a)
     for a in range(len(im.rv)):
@@ -672,10 +835,20 @@ def gen_sim_script(rng, long=False):
                 cn = len(r._value) if ty == 3 else 0
                 v, t = gen_obs(rng, ty, cn, scale=sc)
                 do('u,s%d.%s.%s,%s,%s' % (si, nm, rng.choice(['L', '0']), v, t))
-        else:
+        elif x < 0.95:
             nm = rng.choice(names)
             a = new_result(nm)
             do(('ap,%d,r%d' if rng.chance(0.7) else 'ad,%d,r%d') % (s, a))
+        elif x < 0.975:
+            nm = rng.choice(names)
+            ty, acc, cn = spec[nm]
+            v, tt = gen_obs(rng, ty, cn, scale=sc)
+            do('an,%d,%s,%d,%s,%s' % (s, nm, ty, v, str(cn) if ty == 3 else ('0' if tt == '-' else tt)))
+        else:
+            do('qs,%d' % s)
+            if len(im.sims) < 8 and rng.chance(0.5):
+                do('cps,%d' % s)
+                nsims = len(im.sims)
     for si, sm in enumerate(im.sims):
         for nm in list(sm._results.keys())[:3]:
             do('g,s%d.%s.L' % (si, nm))
@@ -703,7 +876,7 @@ def array_letters(qs):
                 ok = ok and bool(np.isfinite(x)) and Fraction(float(x)) == q
         if ok:
             out.append(letter)
-    return out + ['l', 't', 's', 'r', 'c']
+    return out + ['l', 't', 's', 'r', 'c', 'm']
 
 
 def make_array(tokens, dtype=None):
@@ -715,6 +888,13 @@ def make_array(tokens, dtype=None):
     if dtype in ('l', 't'):
         vals = [pynum(q) for q in qs]
         return vals if dtype == 'l' else tuple(vals)
+    if dtype == 'm':
+        # R10: a list whose elements differ in type (Python int/float, numpy scalars of several widths)
+        out = []
+        for j, q in enumerate(qs):
+            ls = ['p'] + [c for c in np_letters(q) if c != 'z']
+            out.append(np_cast(q, ls[(j * 5 + 1) % len(ls)]))
+        return out
     if dtype in ('s', 'r', 'c'):
         base = make_array(tokens, None)
         if dtype == 's':                      # every second element of a longer buffer: not contiguous
@@ -782,7 +962,7 @@ def pick_values(rng, pool, forced, dup=0.06):
     if rng.chance(0.45):                          # R1/R2: another dtype / container / layout for the same values
         cands = array_letters(vals)
         if forced == 'f':                         # keep float pools float (the int twin is another value class)
-            cands = [c for c in cands if c in ('f', 'e', 's', 'r', 'l', 't', 'c')]
+            cands = [c for c in cands if c in ('f', 'e', 's', 'r', 'l', 't', 'c', 'm')]
             if any(v.denominator == 1 for v in vals):
                 cands = [c for c in cands if c in ('f', 'e')]
         dt = rng.choice(cands)
@@ -866,6 +1046,19 @@ def gen_combine_script(rng, long=False):
         im.kinds = getattr(im, 'kinds', []) + [pl[0]]
     if len(im.sims) == 3:
         do('up,2')
+        if rng.chance(0.3):
+            do('qs,2')
+            do('qs,0')
+        if rng.chance(0.25):
+            do('cps,2')                           # R13: round trip of the derived object
+            do('cb,2,0')                          # … and the derived object used as an operand itself
+        if rng.chance(0.3):
+            # R13: the parents change after the child was derived
+            for nm, lst in im.sims[0]._results.items():
+                ty = int(lst[0]._update_type_code)
+                cn = len(lst[0]._value) if ty == 3 else 0
+                v, t = gen_obs(rng, ty, cn, scale=sc)
+                do('u,s0.%s.0,%s,%s' % (nm, v, t))
         # touch the union: operands must not move (checked through the full dump)
         for nm, lst in im.sims[2]._results.items():
             for j in range(min(len(lst), 2)):
@@ -1151,6 +1344,11 @@ def o_history(case):
         seen = []                                   # observation sequence the accumulator stands for
 
         def verify(upto, what):
+            if case.get('queries'):
+                # R11: every query of the accumulator and of the chunks, between the mutators
+                query_result(accu)
+                for j in range(upto + 1):
+                    query_result(objs[j])
             for j in range(upto + 1):
                 if deep_state(objs[j]) != snaps[j]:
                     return ('%s:operand-mutated-later' % tn,
@@ -1289,7 +1487,13 @@ def o_mergeall(case):
         a = ev(t[1], leftmost)
         b = ev(t[2])
         operands.append((b, sim_state(b), len(a) == 0))
+        if case.get('queries'):
+            query_sim(a)
+            query_sim(b)
         a.merge_all_results(b)
+        if case.get('queries'):
+            query_sim(a)
+            query_sim(b)
         a._c06_obs = {nm: a._c06_obs[nm] + b._c06_obs[nm] for nm in obs}
         return a
 
@@ -1403,7 +1607,7 @@ def combo_key(combo):
     return ','.join(tok(Fraction(c)) for c in combo)
 
 
-def build_grid_sim(fixed, names, grid, dtypes, specs, cells, np_salt=None, use_add=False, order=None):
+def build_grid_sim(fixed, names, grid, dtypes, specs, cells, np_salt=None, use_add=False, order=None, path=0):
     """a result set over the grid (value tokens, exact) with one Result per combination, in the order of
     get_unpacked_params_list (first parameter slowest); returns (object, the caller's value containers).
     use_add: parameters are handed over with add() (no copy is made by the library)"""
@@ -1411,7 +1615,10 @@ def build_grid_sim(fixed, names, grid, dtypes, specs, cells, np_salt=None, use_a
     containers = {}
     for j, (nm, vals) in enumerate(zip(names, grid)):
         containers[nm] = make_array([str(v) for v in vals], dtypes[j] if dtypes else None)
-    if use_add:
+    if path == 2:
+        # R8: configured by later replacement (wrong values first, unpack flags toggled)
+        p = build_params(par, list(fixed), [(nm, containers[nm]) for nm in names], 2)
+    elif use_add:
         p = par.SimulationParameters()
         for nm in reversed(names):              # dictionary order != sorted order
             p.add(nm, containers[nm])
@@ -1431,6 +1638,14 @@ def build_grid_sim(fixed, names, grid, dtypes, specs, cells, np_salt=None, use_a
             s.append_result(feed(make_result(ty, acc, cn, rn), [tuple(o) for o in cells[rn][combo_key(combo)]],
                                  np_salt))
     return s, containers
+
+
+def show_get_value(v):
+    if isinstance(v, str):
+        return v
+    if isinstance(v, np.ndarray):
+        return tuple(round(float(x), 12) if np.isfinite(x) else repr(x) for x in v.tolist())
+    return rsx(v)
 
 
 def params_snapshot(p):
@@ -1493,8 +1708,11 @@ def o_combine(case):
     empty = [any(len(vs) == 0 for vs in g) for g in grids]
     try:
         orders = case.get('orders') or [None, None]     # result-name insertion order of each operand
-        s1, cont1 = build_grid_sim(fixed, names, grids[0], dtypes[0], specs, cells[0], salt, use_add, orders[0])
-        s2, cont2 = build_grid_sim(fixed, names, grids[1], dtypes[1], specs, cells[1], salt, use_add, orders[1])
+        paths = case.get('param_paths') or [0, 0]
+        s1, cont1 = build_grid_sim(fixed, names, grids[0], dtypes[0], specs, cells[0], salt, use_add, orders[0],
+                                   paths[0])
+        s2, cont2 = build_grid_sim(fixed, names, grids[1], dtypes[1], specs, cells[1], salt, use_add, orders[1],
+                                   paths[1])
         snap1, snap2 = sim_state(s1), sim_state(s2)
         psnap = [params_snapshot(s1.params), params_snapshot(s2.params)]
         csnap = [{k: container_snapshot(v) for k, v in c.items()} for c in (cont1, cont2)]
@@ -1555,6 +1773,78 @@ def o_combine(case):
             d = check_stats(r, ty, cn, ob, False)
             if d:
                 return '%s:combination-differs' % pre, '%s at %s: %s' % (rn, key, d)
+    # R11: queries on operands, union and their parameters change nothing
+    if case.get('queries'):
+        ubefore = sim_deep_state(u)
+        for x in (s1, s2, u):
+            query_sim(x)
+        r0 = inputs_ok('by queries (repr, ==, get_result_values_list, get_unpacked_params_list, …)')
+        if r0:
+            return r0
+        if sim_deep_state(u) != ubefore:
+            return '%s:query-mutated-union' % pre, 'a query changed the combined object'
+    # R8: container-level query = element-level queries
+    try:
+        for rn, ty, acc, cn in specs:
+            with warnings.catch_warnings():
+                warnings.simplefilter('ignore')
+                got = [show_get_value(x) for x in u.get_result_values_list(rn)]
+                want = [show_get_value(r.get_result()) for r in u[rn]]
+            if got != want:
+                return '%s:values-list-differs' % pre, '%s: %r vs %r' % (rn, got[:4], want[:4])
+    except Exception as e:
+        return '%s:exception:%s' % (pre, type(e).__name__), repr(e)[:300]
+    # R13: derived objects (copies, pickle round trips, children of the parameters, the union as an operand)
+    try:
+        ustate = sim_deep_state(u)
+        for how in (0, 1):
+            c = round_trip(u, how)
+            if sim_deep_state(c) != ustate:
+                return '%s:round-trip-differs' % pre, 'a %s of the combined object differs from it' % (
+                    'deep copy' if how == 0 else 'pickle round trip')
+            for lst in c._results.values():
+                for r in lst:
+                    r.update(*probe_obs(int(r._update_type_code), 0))
+            for nm in names:
+                if isinstance(c.params[nm], np.ndarray) and c.params[nm].size:
+                    c.params[nm].flat[0] += 3
+            if sim_deep_state(u) != ustate:
+                return '%s:copy-aliases-original' % pre, 'changing a copy changed the combined object'
+        kids = u.params.get_unpacked_params_list()
+        if kids and names:
+            k0 = round_trip(kids[-1], 1)
+            if k0.parameters.keys() != kids[-1].parameters.keys() or any(
+                    fr(k0.parameters[a]) != fr(kids[-1].parameters[a]) for a in names) \
+                    or k0.unpack_index != kids[-1].unpack_index:
+                return '%s:child-round-trip-differs' % pre, 'pickled child %r, child %r' % (k0.parameters,
+                                                                                          kids[-1].parameters)
+            kids[0].add(names[0], 12345)
+            kids[0].add('new_parameter', 1)
+            if sim_deep_state(u) != ustate:
+                return '%s:child-aliases-parent' % pre, 'changing an unpacked child changed the parent parameters'
+        if not (empty[0] or empty[1]):
+            u2 = res.combine_simulation_results(u, s1)          # the derived object used as an operand itself
+            r0 = inputs_ok('when the combined object was combined again')
+            if r0:
+                return r0
+            if sim_deep_state(u) != ustate:
+                return '%s:operand-mutated' % pre, 'the combined object changed when used as an operand'
+            for rn, ty, acc, cn in specs:
+                if ty == TY['misc']:
+                    continue
+                for r, combo in zip(u2._results.get(rn, []), combos):
+                    key = combo_key(combo)
+                    ob = []
+                    for g, c in zip(q, cells):
+                        if all(v in vals for v, vals in zip(combo, g)):
+                            ob += [tuple(o) for o in c[rn][key]]
+                    if all(v in vals for v, vals in zip(combo, q[0])):
+                        ob += [tuple(o) for o in cells[0][rn][key]]
+                    d = check_stats(r, ty, cn, ob, False)
+                    if d:
+                        return '%s:chained-combination-differs' % pre, '%s at %s: %s' % (rn, key, d)
+    except Exception as e:
+        return '%s:exception:%s' % (pre, type(e).__name__), repr(e)[:300]
     # the union owns its objects: touching them must not move the operands
     for rn, ty, acc, cn in specs:
         for r in u._results.get(rn, []):
@@ -1586,6 +1876,17 @@ def o_combine(case):
             v.flat[0] = v.flat[0] + 7
     if [params_snapshot(s1.params), params_snapshot(s2.params)] != psnap2:
         return '%s:union-aliases-operand-params' % pre, 'changing the union\'s parameter values changed an operand'
+    # R13: the parents' results change after the child was derived
+    ustate = sim_state(u)
+    try:
+        for s_op in (s1, s2):
+            for lst in s_op._results.values():
+                for r in lst:
+                    r.update(*probe_obs(int(r._update_type_code), 0))
+    except Exception as e:
+        return '%s:exception:%s' % (pre, type(e).__name__), repr(e)[:300]
+    if sim_state(u) != ustate:
+        return '%s:union-aliases-operand-results' % pre, 'updating an operand after the combination changed the union'
     return None
 
 
@@ -1825,7 +2126,91 @@ def o_float(case):
     return None
 
 
+def o_forms(case):
+    """R8/R9: the same Result built through every argument form and equivalent entry point (positional,
+    keyword, defaults, explicit None, Result.create, add_new_result; the number of choices as a Python int
+    or a numpy integer) is the same object and holds the first-principles statistics"""
+    res, _ = _impl()
+    R, S = res.Result, res.SimulationResults
+    ty, acc, cn = case['ty'], case['acc'], case['cn']
+    obs = [tuple(o) for o in case['obs']]
+    cnt = case.get('cn_tag', 'p')
+    tn = '%s:%s' % (TYN[ty], 'count-' + cnt if (ty == 3 and cnt != 'p') else 'forms')
+    cnv = None
+    if ty == TY['choice']:
+        cnv = cn if cnt == 'p' else NP_BY_LETTER[cnt](cn)
+
+    def val(x):
+        return pynum(Fraction(x))
+
+    built = {}
+    try:
+        # positional everything
+        a = R('x', ty, acc, cnv)
+        for v, t in obs:
+            a.update(val(v), None if t == '-' else val(t))
+        built['positional'] = a
+        # keywords everything
+        b = R(name='x', update_type_code=ty, accumulate_values=acc, choice_num=cnv)
+        for v, t in obs:
+            b.update(value=val(v), total=(None if t == '-' else val(t)))
+        built['keyword'] = b
+        # defaults left alone where the value is the default
+        c = R('x', ty, choice_num=cnv) if not acc else R('x', ty, accumulate_values=True, choice_num=cnv)
+        for v, t in obs:
+            if t == '-':
+                c.update(val(v))
+            else:
+                c.update(val(v), total=val(t))
+        built['defaults'] = c
+        if obs:
+            v0, t0 = obs[0]
+            tot = cnv if ty == TY['choice'] else (0 if t0 == '-' else val(t0))
+            d = R.create('x', ty, val(v0), tot, acc)
+            e = R.create(name='x', update_type=ty, value=val(v0), total=tot, accumulate_values=acc)
+            for v, t in obs[1:]:
+                d.update(val(v), None if t == '-' else val(t))
+                e.update(val(v), None if t == '-' else val(t))
+            built['create-positional'] = d
+            built['create-keyword'] = e
+            if not acc:
+                sset = S()
+                sset.add_new_result('x', ty, val(v0), tot)
+                f = sset['x'][0]
+                for v, t in obs[1:]:
+                    f.update(val(v), None if t == '-' else val(t))
+                built['add_new_result'] = f
+                s2 = S()
+                s2.add_new_result(name='x', update_type=ty, value=val(v0), total=tot)
+                g = s2['x'][0]
+                for v, t in obs[1:]:
+                    g.update(val(v), None if t == '-' else val(t))
+                built['add_new_result-keyword'] = g
+    except Exception as e:
+        return '%s:exception:%s' % (tn, type(e).__name__), '%s after %s' % (repr(e)[:200], sorted(built))
+    ref = deep_state(built['positional'])
+    for k, r in built.items():
+        if deep_state(r) != ref:
+            return '%s:forms-differ:%s' % (tn, k), '%r vs positional %r' % (res_state(r), ref[0])
+    d = check_stats(built['positional'], ty, cn, obs, acc)
+    if d:
+        return '%s:accumulate-wrong' % tn, d
+    return None
+
+
+def gen_forms_case(rng, big=False):
+    ty = rng.choice([0, 1, 2, 3])
+    cn = rng.choice([257, 258, 300]) if big else rng.randint(1, 5)
+    sc = pick_scale(rng)
+    obs = gen_obs_list(rng, ty, cn, rng.randint(0, 5), sc)
+    if big and ty == 3:
+        obs += [[str(cn - 1), '-'], [str(256), '-'], [str(-cn), '-']]     # R9: indices above 256, first / last
+    return {'ty': ty, 'acc': rng.chance(0.5), 'cn': cn, 'obs': obs,
+            'cn_tag': rng.choice(['p', 'h', 'w', 'q', 'P'] + ([] if cn > 127 else ['b'])) if ty == 3 else 'p'}
+
+
 ORACLES = {
+    'entry-points': o_forms,
     'script': o_script,
     'Result.merge/float': o_float,
     'combine_simulation_results/2d': o_combine_2d,
@@ -1906,7 +2291,7 @@ def gen_history_case(rng, ty=None, acc=None):
         return ['N', build(ix[:c]), build(ix[c:])]
 
     return {'ty': ty, 'acc': acc, 'cn': cn, 'chunks': chunks, 'extras': extras, 'tree2': build(list(range(k))),
-            'scale': list(sc), 'np': rng.below(1000) if rng.chance(0.35) else None}
+            'scale': list(sc), 'np': rng.below(1000) if rng.chance(0.35) else None, 'queries': rng.chance(0.5)}
 
 
 def gen_mergeall_case(rng, nmax):
@@ -1932,7 +2317,7 @@ def gen_mergeall_case(rng, nmax):
             prefix[nm] = [gen_obs_list(rng, ty, cn, rng.randint(1, 3), sc) for _ in range(rng.randint(1, 2))]
     return {'specs': specs, 'obs': obs, 'tree': tree, 'into_empty': into_empty, 'prefix': prefix,
             'scale': list(sc), 'np': rng.below(1000) if rng.chance(0.35) else None,
-            'name_rot': rng.randint(1, 7) if (nn >= 2 and rng.chance(0.7)) else 0}
+            'name_rot': rng.randint(1, 7) if (nn >= 2 and rng.chance(0.7)) else 0, 'queries': rng.chance(0.4)}
 
 
 def gen_appendall_case(rng):
@@ -1979,6 +2364,7 @@ def gen_combine_case(rng, nunp=None, ty=None):
         cells.append(c)
     return {'specs': specs, 'pnames': pn, 'grids': grids, 'dtypes': dtypes, 'cells': cells, 'fixed': [['f', 3]],
             'kinds': [pl[0] for pl in pools], 'name_kind': nkind, 'orders': orders,
+            'queries': rng.chance(0.4), 'param_paths': [rng.choice([0, 0, 2]), rng.choice([0, 2])],
             'np': rng.below(1000) if rng.chance(0.35) else None,
             'use_add': rng.chance(0.5), 'scale': list(sc)}
 
@@ -2143,6 +2529,8 @@ def correspondence(ctx, quick):
     corr_scripts(ctx, drv, 'Result.script', gen_result_script, 600 * k, long=not quick)
     corr_scripts(ctx, drv, 'SimulationResults.script', gen_sim_script, 500 * k, long=not quick)
     corr_scripts(ctx, drv, 'combine.script', gen_combine_script, 300 * k, long=not quick)
+    corr_scripts(ctx, drv, 'combine.script', lambda rng, long: big_script(rng), 1 if quick else 3)
+    ctx.branch('script:R14:260-combinations')
     corr_trees(ctx, drv, 600 * k, 40 if quick else 120)
     corr_float_stream(ctx, drv, 100 * k)
 
@@ -2192,6 +2580,85 @@ def note_case(ctx, case):
             ctx.branch('R5:empty-value-list')
         if case.get('use_add'):
             ctx.branch('R3:params-shared-with-caller')
+        if 2 in (case.get('param_paths') or []):
+            ctx.branch('R8:params-by-replacement')
+        ctx.branch('R13:derived-objects')
+    if case.get('queries'):
+        ctx.branch('R11:queries')
+
+
+def big_cases(ctx, quick):
+    """R14: counts of 257 / 258 / 300 (chunks, result names, parameter values, choices); one of each per quick
+    run, a few more in the thorough tier"""
+    rng = ctx.rng
+    for rep in range(1 if quick else 3):
+        # 300 chunks merged along a random tree
+        ty = rng.choice([0, 1, 3])
+        cn = rng.choice([257, 300])
+        n = 300 + rep
+        obs = gen_obs_list(rng, ty, cn, n)
+        leaves = [['L', i, i + 1] for i in range(n)]
+        while len(leaves) > 1:
+            j = rng.below(len(leaves) - 1)
+            leaves[j:j + 2] = [['N', leaves[j], leaves[j + 1]]]
+        run_oracle(ctx, 'Result.merge', {'ty': ty, 'acc': rng.chance(0.5), 'cn': cn, 'obs': obs, 'tree': leaves[0]},
+                   key=('big-tree', rep))
+        ctx.branch('R14:300-chunks')
+        # a result set with 258 result names, merged three times, names in different orders
+        nn = 258
+        specs = [['n%d' % i, rng.choice([0, 1]), False, 1] for i in range(nn)]
+        ob = {sp[0]: gen_obs_list(rng, sp[1], 1, 3) for sp in specs}
+        run_oracle(ctx, 'SimulationResults.merge_all_results',
+                   {'specs': specs, 'obs': ob, 'tree': ['N', ['N', ['L', 0, 1], ['L', 1, 2]], ['L', 2, 3]],
+                    'into_empty': rep % 2 == 1, 'prefix': {}, 'name_rot': 101}, key=('big-names', rep))
+        ctx.branch('R14:258-result-names')
+        # 257+ parameter values in the union grid
+        a = list(range(1, 181 + rep))
+        b = list(range(120, 300))
+        rng.shuffle(a)
+        rng.shuffle(b)
+        cells = [{'x': {str(v): [[str(v % 7), '-']] for v in a}}, {'x': {str(v): [[str(v % 5), '-'], ['1', '-']] for v in b}}]
+        run_oracle(ctx, 'combine_simulation_results',
+                   {'specs': [['x', 0, False, 1]], 'pnames': ['user10'], 'name_kind': 'plain',
+                    'grids': [[[str(v) for v in a]], [[str(v) for v in b]]], 'dtypes': ['w', 'h'], 'cells': cells,
+                    'fixed': [['f', 3]], 'orders': [[0], [0]], 'queries': False}, key=('big-grid', rep))
+        ctx.branch('R14:299-combinations')
+        # CHOICE with 300 choices, indices above 256
+        case = gen_forms_case(rng, big=True)
+        case['ty'] = 3
+        case['cn_tag'] = rng.choice(['p', 'h', 'w', 'q', 'P'])
+        case['obs'] = [[str(i), '-'] for i in (0, 255, 256, 257, case['cn'] - 1, -1, -case['cn'], 256)]
+        run_oracle(ctx, 'entry-points', case, key=('big-choice', rep))
+        ctx.branch('R9:index-above-256')
+
+
+def big_script(rng):
+    """R14 in the correspondence: two result sets over grids of 150 values (union 260), one result each"""
+    im = Impl()
+    ops = []
+
+    def do(op):
+        ops.append(op)
+        im.step(op)
+
+    a = list(range(1, 151))
+    b = list(range(111, 261))
+    rng.shuffle(a)
+    rng.shuffle(b)
+    for s_i, vals in enumerate((a, b)):
+        do('ns')
+        do('sp,%d,%s=3,%s=%s,%s' % (s_i, enc_name('f'), enc_name('x10'), ':'.join(str(v) for v in vals),
+                                    rng.choice('iwh')))
+        for v in vals:
+            do('cr,r,0,0,%d,0' % (v % 9))
+            do('ap,%d,r%d' % (s_i, len(im.rv) - 1))
+    do('qs,0')
+    do('cb,0,1')
+    do('up,2')
+    do('cps,2')
+    do('g,s2.r.L')
+    im.big = True
+    return ops, im
 
 
 def oracles(ctx, quick):
@@ -2214,6 +2681,13 @@ def oracles(ctx, quick):
                 ctx.branch('history:%s:acc=%d' % (TYN[ty], 1 if acc else 0))
                 ctx.branch('R7:chunk-in-three-accumulators')
                 note_case(ctx, case)
+    big_cases(ctx, quick)
+    for _ in range(120 * k):
+        case = gen_forms_case(ctx.rng)
+        run_oracle(ctx, 'entry-points', case)
+        ctx.branch('R8:forms:' + TYN[case['ty']])
+        if case['cn_tag'] != 'p':
+            ctx.branch('R9:count-numpy')
     for _ in range(150 * k):
         case = gen_rejected_case(ctx.rng)
         run_oracle(ctx, 'rejected-call', case)
@@ -2305,6 +2779,10 @@ def check(ctx):
                              'script:names=unicode', 'script:result-names-in-different-order', 'op:ro',
                              'combine:result-names-in-different-order', 'combine:different-order+same-typed',
                              'mergeall:result-names-in-different-order',
+                             'op:cr', 'op:an', 'op:cp', 'op:cps', 'op:q', 'op:qs', 'R8:forms:choice', 'R8:forms:ratio',
+                             'R8:params-by-replacement', 'R9:count-numpy', 'R9:index-above-256', 'R2:container-m',
+                             'R11:queries', 'R13:derived-objects', 'R14:300-chunks', 'R14:258-result-names',
+                             'R14:299-combinations', 'script:R14:260-combinations',
                              'script:values=big', 'script:values=ulp', 'script:values=mixed']
     try:
         correspondence(ctx, quick)
@@ -2333,6 +2811,8 @@ def search(ctx):
         run_oracle(ctx, 'Result.merge/history', gen_history_case(ctx.rng))
     for _ in range(2000):
         run_oracle(ctx, 'rejected-call', gen_rejected_case(ctx.rng))
+    for _ in range(2000):
+        run_oracle(ctx, 'entry-points', gen_forms_case(ctx.rng))
     for _ in range(1500):
         run_oracle(ctx, 'SimulationResults.merge_all_results', gen_mergeall_case(ctx.rng, 20))
     for _ in range(500):
